@@ -9,6 +9,7 @@ Open Scope Z_scope.
 Definition units_per_nm : Z := 1048576000.
 Definition atomic_radii_U : list (string * Z) := [
   ("H"%string, (125829120)%Z);
+  ("D"%string, (125829120)%Z);
   ("He"%string, (146800640)%Z);
   ("Li"%string, (79691776)%Z);
   ("Be"%string, (61865984)%Z);
@@ -120,10 +121,13 @@ Definition atomic_radii_U : list (string * Z) := [
   ("Ds"%string, (209715200)%Z);
   ("Rg"%string, (209715200)%Z);
   ("Cn"%string, (209715200)%Z);
+  ("Uub"%string, (209715200)%Z);
   ("Uut"%string, (209715200)%Z);
   ("Fl"%string, (209715200)%Z);
+  ("Uuq"%string, (209715200)%Z);
   ("Uup"%string, (209715200)%Z);
   ("Lv"%string, (209715200)%Z);
+  ("Uuh"%string, (209715200)%Z);
   ("Uus"%string, (209715200)%Z);
   ("Uuo"%string, (209715200)%Z)
 ].
